@@ -554,7 +554,7 @@ def _job(job):
         if ex.capped:
             part.cap(f"pass horizon hit in {name}")
 
-    st = explorer.explore(factory, case, bound, max_execs=40000, max_passes=2500, on_exec=on_exec)
+    st = explorer.explore(factory, case, bound, max_execs=40000 if bound <= 2 else 1200, max_passes=2500, on_exec=on_exec)
     if st["truncated"]:
         part.cap(f"execution cap hit for {name} at bound {bound} (complete up to bound {st['completed_bound']}, {st['executions']} executions reported)")
     if len(part.samples) < 1:
